@@ -49,52 +49,84 @@ pub fn decode_nat<R>(r: &mut R) -> Result<u128>
 where
     R: io::Read + ?Sized,
 {
-    let mut result = 0;
-    let mut shift = 0;
+    let mut result: u128 = 0;
+    let mut shift: u32 = 0;
     loop {
         let mut buf = [0];
         r.read_exact(&mut buf)?;
-        if shift == 127 && buf[0] != 0x00 && buf[0] != 0x01 {
+        let low_bits = (buf[0] & !CONTINUATION_BIT) as u128;
+        // Bits at position 128 and above must be zero (padding), otherwise the value overflows u128.
+        let overflow = if shift >= 128 {
+            low_bits != 0
+        } else {
+            shift > 121 && (low_bits >> (128 - shift)) != 0
+        };
+        if overflow {
             while buf[0] & CONTINUATION_BIT != 0 {
                 r.read_exact(&mut buf)?;
             }
             return Err(Error::msg("nat overflow"));
         }
-        let low_bits = (buf[0] & !CONTINUATION_BIT) as u128;
-        result |= low_bits << shift;
+        if shift < 128 {
+            result |= low_bits << shift;
+        }
         if buf[0] & CONTINUATION_BIT == 0 {
             return Ok(result);
         }
-        shift += 7;
+        shift = shift.saturating_add(7);
     }
 }
 pub fn decode_int<R>(r: &mut R) -> Result<i128>
 where
     R: io::Read + ?Sized,
 {
-    let mut result = 0;
-    let mut shift = 0;
-    let size = 128;
+    // Low 128 bits of the two's complement value, before sign extension.
+    let mut result: u128 = 0;
+    let mut shift: u32 = 0;
+    // Whether all bits seen at position 128 and above are zero / are one.
+    let mut high_zeros = true;
+    let mut high_ones = true;
     let mut byte;
     loop {
         let mut buf = [0];
         r.read_exact(&mut buf)?;
         byte = buf[0];
-        if shift == 127 && byte != 0x00 && byte != 0x7f {
-            while buf[0] & CONTINUATION_BIT != 0 {
-                r.read_exact(&mut buf)?;
+        let low_bits = (byte & !CONTINUATION_BIT) as u128;
+        if shift < 128 {
+            result |= low_bits << shift;
+            if shift > 121 {
+                // this group straddles bit 127: its upper bits lie beyond the i128 range
+                let beyond = low_bits >> (128 - shift);
+                let width = shift + 7 - 128;
+                high_zeros &= beyond == 0;
+                high_ones &= beyond == (1u128 << width) - 1;
             }
-            return Err(Error::msg("int overflow"));
+        } else {
+            high_zeros &= low_bits == 0;
+            high_ones &= low_bits == 0x7f;
         }
-        let low_bits = (byte & !CONTINUATION_BIT) as i128;
-        result |= low_bits << shift;
-        shift += 7;
+        shift = shift.saturating_add(7);
         if byte & CONTINUATION_BIT == 0 {
             break;
         }
     }
-    if shift < size && (byte & SIGN_BIT) == SIGN_BIT {
-        result |= !0 << shift;
+    let negative = (byte & SIGN_BIT) == SIGN_BIT;
+    if shift < 128 {
+        if negative {
+            result |= !0u128 << shift;
+        }
+        return Ok(result as i128);
     }
-    Ok(result)
+    // All 128 bits are explicit: the bits beyond must be a pure sign extension of bit 127.
+    let sign_bit_set = (result >> 127) == 1;
+    let fits = if negative {
+        high_ones && sign_bit_set
+    } else {
+        high_zeros && !sign_bit_set
+    };
+    if fits {
+        Ok(result as i128)
+    } else {
+        Err(Error::msg("int overflow"))
+    }
 }
